@@ -2,9 +2,9 @@
     ([events_characterized_all], as [EbSimEvEnc_proofs.events_characterized] without the premise `one start-face bit`),
     from the weak small-step relation across run boundaries (EbTraceStepM_proofs) and the invariants J1, J3, J5, J6 along
     the whole trace (EbTraceInvM_proofs). *)
-From Coq Require Import ZArith List Bool Lia Arith PeanoNat.
+From Coq Require Import ZArith List Bool Lia Arith PeanoNat Sorting.Sorted.
 From Draco Require Import Model.CornerTable Model.EbEncoder Model.EbTrace Proofs.CornerTable_proofs Proofs.EbEncoder_proofs.
-From Draco Require Import Proofs.EbTrace_proofs Proofs.EbTraceStep_proofs Proofs.EbTraceInv_proofs Proofs.EbTraceStepM_proofs Proofs.EbTraceInvM_proofs.
+From Draco Require Import Proofs.EbTrace_proofs Proofs.EbTraceStep_proofs Proofs.EbTraceInv_proofs Proofs.EbTraceStepM_proofs Proofs.EbTraceInvM_proofs Proofs.EbTraceLedger_proofs.
 From Draco Require Import Proofs.EbSimEnc_proofs Proofs.EbSimDec_proofs Proofs.EbSim_proofs Proofs.EbSimEvEnc_proofs.
 From Draco Require Model.Edgebreaker.
 From Draco Require Import Proofs.EbSimS_proofs Proofs.EbSimLoop_proofs Proofs.EbSimEv_proofs Proofs.EbSimEvChk_proofs Proofs.EbSimCount_proofs.
@@ -705,6 +705,98 @@ Proof.
     apply ES_nil; [exact Hk|fold i; auto].
 Qed.
 
+
+(** ** the stack correspondence with the NAMES of the entries of the later runs: given the positions [PD] of the run starts
+    (strictly decreasing; the step into a position is a run boundary, every other step is inside a run) *)
+Section LedgerTS.
+Variable PD : list nat.
+Hypothesis PDs : StronglySorted (fun a b => b < a) PD.
+Hypothesis PDlt : forall a, In a PD -> a < length tr.
+Hypothesis PS : forall i, S i < length tr ->
+  (In (S i) PD -> RSTEP opp (cfN tr i) (cfN tr (S i))) /\ (~ In (S i) PD -> SSTEP opp (cfN tr i) (cfN tr (S i))).
+
+Definition RESTS (i : nat) : list nat := map (ci tr) (rev (filter (fun a => i <? a) PD)).
+
+Lemma TS2 : forall d i, i + d = N - 1 -> i < N ->
+  map (fun j => nth j Q 0) (topsE Y ES (N - i)) = c i :: map the (filter alive_e (tl (stack (sti i)))) ++ RESTS i.
+Proof.
+  induction d as [|d IH]; intros i Ei Hi.
+  - assert (i = N - 1) by lia. subst i. replace (N - (N - 1)) with 1 by lia.
+    assert (R0 : RESTS (N - 1) = []).
+    { unfold RESTS. rewrite (EbTraceLedger_proofs.filter_none_all _ PD); [reflexivity|]. intros a Ha. apply Nat.ltb_ge. specialize (PDlt a Ha). unfold N. lia. }
+    rewrite R0.
+    assert (T1 : topsE Y ES 1 = [0]).
+    { destruct (nth_error Y 0) as [yv|] eqn:E0.
+      - rewrite (topsE_S 0 yv E0). cbn [topsE tl]. destruct (yv =? 7)%Z; auto. destruct (yv =? 1)%Z; [destruct (hasev ES 0)|]; auto.
+      - apply nth_error_None in E0. unfold Y in E0. rewrite rev_length in E0. fold ns in E0. unfold N in Hi. lia. }
+    rewrite T1. cbn [map]. rewrite (Qc 0) by (unfold N in Hi; lia). replace (ns - 1 - 0) with (N - 1) by (unfold N; lia). f_equal.
+    rewrite app_nil_r.
+    destruct (Last ltac:(unfold N in *; lia)) as (_ & _ & Vf & _ & _ & D). cbv zeta in D.
+    rewrite (dead_filter (N - 1) _ sL); auto.
+    pose proof FinalDead as FD. rewrite Forall_forall in FD. apply Forall_forall. intros e He.
+    assert (InS : forall e, In e (tl (stack (sti (N - 1)))) -> In e (stack (sti (N - 1)))) by (intros e0 He0; destruct (stack (sti (N - 1))); [destruct He0|right; exact He0]).
+    destruct D as [(_ & St & _)|[(_ & _ & _ & St & _)|[(_ & _ & _ & St & _)|[(_ & _ & _ & _ & St & _)|(Y0 & _)]]]].
+    + apply FD. rewrite St. apply InS. exact He.
+    + apply FD. rewrite St. apply InS. exact He.
+    + apply FD. rewrite St. apply InS. exact He.
+    + apply FD. rewrite St. exact He.
+    + exfalso. apply (S_not_last ltac:(lia)).
+      unfold EbTraceInv_proofs.ysym. fold N. replace (S (N - 1) <? N) with false by (symmetry; apply Nat.ltb_ge; lia). exact Y0.
+  - assert (HS : S i < length tr) by (unfold N in *; lia).
+    assert (Hk : ns - 1 - i < ns) by (unfold N in *; lia).
+    replace (N - i) with (S (ns - 1 - i)) by (unfold N in *; lia).
+    pose proof (IH (S i) ltac:(lia) ltac:(unfold N in *; lia)) as IHs. replace (N - S i) with (ns - 1 - i) in IHs by (unfold N in *; lia).
+    pose proof (Y_at' (ns - 1 - i) Hk) as Ey. replace (ns - 1 - (ns - 1 - i)) with i in Ey by (unfold N in *; lia).
+    rewrite (topsE_S _ _ Ey).
+    assert (Ec : nth (ns - 1 - i) Q 0 = c i) by (rewrite (Qc _ Hk); f_equal; unfold N in *; lia).
+    destruct (in_dec Nat.eq_dec (S i) PD) as [Hin|Hnin].
+    + (* a run boundary *)
+      destruct (PS i HS) as [PR _].
+      destruct (ssR i HS (PR Hin)) as (Y0 & E & s1 & (_ & _ & Vf & _) & _ & Dd & _).
+      assert (RS : RESTS i = c (S i) :: RESTS (S i)).
+      { unfold RESTS. rewrite (filter_step_in PD i PDs Hin), rev_app_distr. reflexivity. }
+      rewrite RS. rewrite Y0. cbn [Z.eqb Pos.eqb]. cbn [map]. rewrite Ec. f_equal.
+      rewrite (dead_filter i (tl (stack (sti i))) s1); [|unfold N in *; lia|auto|exact Vf|exact Dd].
+      cbn [map app]. rewrite IHs, E. cbn [tl filter map app]. reflexivity.
+    + destruct (PS i HS) as [_ PSs]. pose proof (PSs Hnin) as Hs.
+      assert (RS : RESTS i = RESTS (S i)) by (unfold RESTS; rewrite (filter_step_nin PD i Hnin); reflexivity).
+      rewrite RS.
+      destruct (ssS i HS Hs) as [([Y0|Y0] & E & _)|[(Y0 & E & _)|[(Y0 & _ & (dead & rest & E0 & E & Dd & _) & _)|(Y0 & _ & _ & (l & El & Ul & E) & _)]]].
+      * rewrite Y0. cbn [Z.eqb Pos.eqb]. cbn [map]. rewrite Ec. f_equal. rewrite <- E.
+        destruct (topsE Y ES (ns - 1 - i)); cbn [map tl] in *; [discriminate|]. inversion IHs. reflexivity.
+      * rewrite Y0. cbn [Z.eqb Pos.eqb]. cbn [map]. rewrite Ec. f_equal. rewrite <- E.
+        destruct (topsE Y ES (ns - 1 - i)); cbn [map tl] in *; [discriminate|]. inversion IHs. reflexivity.
+      * rewrite Y0. cbn [Z.eqb Pos.eqb]. cbn [map]. rewrite Ec. f_equal. rewrite <- E.
+        destruct (topsE Y ES (ns - 1 - i)); cbn [map tl] in *; [discriminate|]. inversion IHs. reflexivity.
+      * rewrite Y0. cbn [Z.eqb Pos.eqb]. cbn [map]. rewrite Ec. f_equal. rewrite IHs, E. cbn [tl].
+        rewrite E0, filter_app. rewrite (dead_filter i dead (sti (S i))); [|unfold N in *; lia| |apply vf_SS; auto|exact Dd].
+        -- cbn [app filter alive_e].
+           assert (A : alive_b (c (S i)) = true) by (apply alive_b_iff; exists (S i); split; [unfold N; exact HS|reflexivity]).
+           rewrite A. reflexivity.
+        -- intros e He. rewrite E0. apply in_or_app. left. exact He.
+      * rewrite Y0. cbn [Z.eqb Pos.eqb]. rewrite E in IHs. cbn [tl filter alive_e] in IHs.
+        destruct (alive_b l) eqn:A.
+        -- assert (Hh : hasev ES (ns - 1 - i) = false).
+           { destruct (hasev ES (ns - 1 - i)) eqn:H; [|reflexivity]. exfalso.
+             apply (hasev_iff i ltac:(unfold N in *; lia)) in H. apply alive_b_iff in A.
+             exact (ev_not_alive i l ltac:(unfold N in *; lia) Y0 El H A). }
+           rewrite Hh. cbn [map]. rewrite Ec. f_equal.
+           destruct (topsE Y ES (ns - 1 - i)) as [|t0 [|t1 T]]; cbn [map tl the app] in *; try discriminate. inversion IHs. reflexivity.
+        -- assert (Hh : hasev ES (ns - 1 - i) = true).
+           { apply (hasev_iff i ltac:(unfold N in *; lia)). apply (not_alive_ev i l ltac:(unfold N in *; lia) Y0 El).
+             intro X. apply alive_b_iff in X. congruence. }
+           rewrite Hh. cbn [map]. rewrite Ec. f_equal.
+           destruct (topsE Y ES (ns - 1 - i)) as [|t0 T]; cbn [map tl the app] in *; try discriminate. inversion IHs. reflexivity.
+Qed.
+
+(** the decoder's final stack = the start corners of the runs, in encoding order *)
+Lemma tops_starts : 0 < N -> In 0 PD -> map (fun j => nth j Q 0) (topsE Y ES ns) = map (ci tr) (rev PD).
+Proof.
+  intros HN H0. pose proof (TS2 (N - 1) 0 ltac:(lia) HN) as T. replace (N - 0) with ns in T by (unfold N; lia).
+  destruct (First ltac:(unfold N in HN; exact HN)) as (_ & _ & _ & _ & St0). rewrite St0 in T. cbn [tl filter map app] in T.
+  rewrite T. rewrite (desc_zero PD PDs H0). cbn [map]. reflexivity.
+Qed.
+End LedgerTS.
 End EncM.
 
 (** closed form: EVERY encoding satisfies the per-symbol script conditions of [EbSimEv_proofs.dec_roundtrip_events] *)
@@ -757,6 +849,104 @@ Proof.
   - rewrite rev_length. exact SO.
 Qed.
 
+(** ** the start-face phase for EVERY encoding: [start_ok_g] on the decoder's final stack, from the ledger of the runs
+    (EbTraceLedger_proofs) and [RUNS] (IFc' of the init corners) *)
+Lemma trace_len_bound : length tr <= NF c2v.
+Proof.
+  pose proof (trace_refines_big_step_ok _ _ _ _ _ _ _ Et) as E.
+  destruct (trace_coherent _ _ _ _ _ _ _ Et) as [Lt Co]. fold ns in Lt, Co.
+  destruct (encode_facts_wf c2v opp nf nv niso ndeg o Hlen OK Hv FAN E) as (L & ND & _).
+  destruct (eb_encode_total c2v opp nf nv niso ndeg Hlen OK Hv FAN) as [T1 T2].
+  destruct (Nat.eq_dec nf ndeg) as [Eq|Nd]; [rewrite (T1 Eq) in E; discriminate|].
+  destruct (T2 Nd) as (o' & E' & OO & _). rewrite E in E'. inversion E'; subst o'. clear E' T1 T2.
+  destruct OO as (_ & Rng & Comp & _). fold Q in Rng, ND, L, Comp. rewrite rev_length in L. fold ns in L.
+  rewrite Lt. rewrite (NF_eq c2v nf Hlen). eapply Nat.le_trans; [instantiate (1 := length Q); lia|]. rewrite <- (map_length (fun c => c / 3) Q).
+  apply nodup_bound; [exact ND|]. intros x Hx. apply in_map_iff in Hx. destruct Hx as (c & <- & Hc).
+  rewrite Forall_forall in Rng. destruct (Rng c Hc) as (Rc & _). apply Nat.div_lt_upper_bound; lia.
+Qed.
+
+Lemma RUNS_inits (IP : nat -> Prop) : forall b i P Y, RUNS opp IP b i P Y -> Forall IP i.
+Proof.
+  intros b i P Y R. induction R as [|b bits inits inits' P Y Pn Yn R IH Np Ln Bl Hb]; [constructor|].
+  destruct b; [destruct Hb as (ic & -> & _ & Hi); constructor; auto|subst; auto].
+Qed.
+
+Lemma nth_error_map_inv {A B} (f : A -> B) : forall l i y, nth_error (map f l) i = Some y -> exists x, nth_error l i = Some x /\ y = f x.
+Proof.
+  induction l as [|a l IH]; intros [|i] y H; cbn [map nth_error] in *; try discriminate.
+  - inversion H. eauto.
+  - apply IH. exact H.
+Qed.
+
+Theorem start_allM : start_ok_g c2v opp nf Q (rev (o_syms o)) (topsE (rev (o_syms o)) (EVseg_of o) ns) (o_bits o).
+Proof.
+  pose proof (trace_refines_big_step_ok _ _ _ _ _ _ _ Et) as E.
+  destruct (trace_coherent _ _ _ _ _ _ _ Et) as [Lt0 _]. fold ns in Lt0.
+  destruct (encode_facts_wf c2v opp nf nv niso ndeg o Hlen OK Hv FAN E) as (L0 & ND0 & _ & _ & RU & DJ).
+  fold Q in L0, ND0, RU, DJ. rewrite rev_length in L0, RU, DJ. fold ns in L0, RU, DJ.
+  destruct (trace_ledger c2v opp nf nv niso ndeg o tr Hlen OK Hv FAN Et trace_len_bound) as (sF & bits & inits & Eb & Ep & Es & Ee & JG).
+  fold Q in Ep.
+  destruct (Nat.eq_dec (length tr) 0) as [Z0|NZ0].
+  { (* no symbol, no bit *)
+    assert (Hb : bits = []).
+    { destruct JG as [(_ & _ & X & _)|(L & (B1 & _ & _ & B4 & _) & _)]; [exact X|].
+      destruct L as [|e L']; [exact B1|]. destruct (B4 e (or_introl eq_refl)) as (cf & X & _).
+      assert (Y0 : lpos e < length (rev (rev tr))) by (apply nth_error_Some; congruence). rewrite !rev_length in Y0. lia. }
+    subst bits. cbn [rev] in Eb. rewrite Eb in *. assert (Hn : ns = 0) by lia. rewrite Hn. cbn [topsE].
+    unfold start_ok_g. rewrite rev_length. fold ns. rewrite Hn. split; [reflexivity|]. split.
+    - unfold cnt_true. cbn [count_occ] in *. lia.
+    - intros i j X. destruct i; discriminate. }
+  assert (Ne : tr <> []) by (intro X; rewrite X in NZ0; cbn in NZ0; lia).
+  assert (HN : 0 < length tr) by lia.
+  destruct JG as [(Er & _)|(L & (B1 & B2 & B3 & B4 & B5 & B6) & PS0 & _ & _)].
+  { exfalso. apply Ne. rewrite <- (rev_involutive tr), Er. reflexivity. }
+  destruct (run_facts_allM Ne) as (yL & sL & Steps & Last & First & FND & Eev & Lt & Corner & Ysym & FD & LQ & Comp & Rq & NDQ).
+  unfold PSTEPS in PS0. rewrite rev_involutive in B4, PS0.
+  set (PD := map lpos L).
+  assert (PDs : StronglySorted (fun a b => b < a) PD) by (apply sorted_map_lpos; exact B5).
+  assert (PDlt : forall a, In a PD -> a < length tr).
+  { intros a Ha. apply in_map_iff in Ha. destruct Ha as (e & <- & He). destruct (B4 e He) as (cf & X & _). apply nth_error_Some. congruence. }
+  assert (PS : forall i, S i < length tr ->
+            (In (S i) PD -> RSTEP opp (cfN tr i) (cfN tr (S i))) /\ (~ In (S i) PD -> SSTEP opp (cfN tr i) (cfN tr (S i)))).
+  { intros i Hi. apply (PS0 i); apply nth_error_nth'; lia. }
+  assert (H0 : In 0 PD) by (apply B6; intro X; apply Ne; rewrite <- (rev_involutive tr), X; reflexivity).
+  assert (TSeq : map (fun j => nth j Q 0) (topsE (rev (o_syms o)) (EVseg_of o) ns) = map (ci tr) (rev PD)).
+  { eapply (tops_starts yL sL); try eassumption. }
+  set (LA := rev L).
+  assert (EPA : rev PD = map lpos LA) by (unfold PD, LA; rewrite map_rev; reflexivity).
+  assert (EB : o_bits o = map lbit LA) by (rewrite Eb, B1; unfold LA; rewrite map_rev; reflexivity).
+  assert (Li : length inits = count_occ bool_dec (o_bits o) true).
+  { rewrite B2, lics_length, Eb, B1, count_occ_rev. reflexivity. }
+  assert (Lp : length (pcc sF) = ns).
+  { rewrite Ep, app_length, rev_length in L0. lia. }
+  assert (ESk : skipn ns Q = lics LA).
+  { rewrite Ep, <- Lp, skipn_app, skipn_all, Nat.sub_diag. cbn [app skipn]. unfold LA. rewrite lics_rev, B2. reflexivity. }
+  assert (IFall : forall ic, In ic (skipn ns Q) -> IFc' c2v opp nf ic).
+  { intros ic Hic. pose proof (RUNS_inits _ _ _ _ _ RU) as X. rewrite Forall_forall in X. apply X. apply -> in_rev. exact Hic. }
+  assert (HYQ : length (rev (o_syms o)) <= length Q) by (rewrite rev_length; fold ns; exact LQ).
+  apply start_ok_g_of_idx; auto; rewrite ?rev_length; fold ns.
+  - unfold cnt_true. exact L0.
+  - rewrite <- (map_length (fun j => nth j Q 0)), TSeq, map_length, EPA, map_length, EB, map_length. reflexivity.
+  - intros i j Ej Bi.
+    assert (Hj : j < ns).
+    { apply (topsE_lt c2v opp nf Hlen OK Q Rq NDQ 0%Z 0%Z (rev (o_syms o)) HYQ FAN (EVseg_of o) ns j). eapply nth_error_In; eauto. }
+    split; [exact Hj|].
+    pose proof (map_nth_error (fun j => nth j Q 0) i _ Ej) as X. rewrite TSeq, EPA, map_map in X.
+    apply nth_error_map_inv in X. destruct X as (e & Ee0 & Ec).
+    assert (HeL : In e L) by (apply in_rev; fold LA; eapply nth_error_In; eauto).
+    destruct (B4 e HeL) as (cf & Ncf & Ccf).
+    assert (Ece : ci tr (lpos e) = lcor e) by (unfold ci, cfN; rewrite (nth_error_nth _ _ _ Ncf); exact Ccf).
+    assert (Ebit : lbit e = true).
+    { rewrite EB in Bi. pose proof (map_nth_error lbit i _ Ee0) as Y0. rewrite (nth_error_nth _ _ false Y0) in Bi. exact Bi. }
+    unfold lbit in Ebit. destruct (lic e) as [ic|] eqn:Eic; [|discriminate].
+    exists ic. split; [|split].
+    + rewrite ESk, EB. unfold cnt_true. apply (lics_nth LA i e ic Ee0 Eic).
+    + change (opp_at opp ic) with (oat opp ic). rewrite (B3 e ic HeL Eic). f_equal. rewrite <- Ece, <- Ec.
+      rewrite <- (firstn_skipn ns Q) at 1. rewrite app_nth1; [reflexivity|]. rewrite firstn_length_le; lia.
+    + apply IFall. rewrite ESk. eapply nth_error_In. apply (lics_nth LA i e ic Ee0 Eic).
+  - intros m1 m2 Hm Hl. apply DJ; auto.
+Qed.
+
 (** at most one event per symbol, any number of runs *)
 Lemma events_countM : length (o_events o) <= ns.
 Proof.
@@ -795,3 +985,38 @@ Proof.
   rewrite Eq. rewrite <- Nf.
   apply (ebsim_roundtrip_events_start_partial (ct_c2v t) (ct_opp t) (length faces) (length (ct_vcorn t)) (ct_niso t) (ct_ndeg t) o tr L OK Hv FAN Et rm); auto.
 Qed.
+
+(** * THE GENERAL ROUND TRIP.  For every table with C13's invariants (corner-table lengths, Opposite an involution between
+    non-degenerate faces sharing an edge - [opp_ok] -, vertex ids in range, one fan per vertex) and every successful run of
+    EncodeConnectivity on it: the decoder state machine [eb_core], run with the sizes declared by the encoder, on the
+    reversed symbols, the recorded split events and the start-face bits, ACCEPTS (for remove_invalid_vertices false and
+    true) and rebuilds a corner table isomorphic to the encoder's non-degenerate faces ([eb_iso]: the face j of the decoder
+    is the face of the j-th processed corner, Opposite is preserved in both directions, two corners carry the same decoder
+    vertex iff they carry the same encoder vertex). *)
+Theorem ebsim_roundtrip c2v opp nf nv niso ndeg o rm maxv :
+  length c2v = 3 * nf -> opp_ok c2v opp -> (forall c, c < 3 * nf -> vtx c2v c < nv) -> one_fan c2v opp ->
+  eb_encode c2v opp nv niso ndeg = EOk o ->
+  (Z.of_nat (length (o_syms o)) < 2147483648)%Z -> (cntv (rev (o_syms o)) <= maxv)%Z ->
+  let F := Z.of_nat (length (o_pcc o)) in
+  exists n s, D.eb_core (3 * F) maxv F rm (rev (o_syms o)) (o_events o) (D.bits_of_list (o_bits o)) = D.Ok (n, s) /\
+              eb_iso c2v opp (o_pcc o) (D.c2v s) (D.copp s).
+Proof.
+  intros Hlen OK Hv FAN E Hns Hm.
+  destruct (big_step_has_trace _ _ _ _ _ _ E) as (tr & Et).
+  apply (ebsim_roundtrip_events_start_partial c2v opp nf nv niso ndeg o tr Hlen OK Hv FAN Et rm maxv Hns Hm).
+  apply (start_allM c2v opp nf nv niso ndeg o tr Hlen OK Hv FAN Et).
+Qed.
+
+(** against DecodeConnectivity ([eb_decode_of]: the header guards, the state machine, the vertex compaction) for the tables of
+    CornerTable::Create, under the two premises of C09_ebenc_stream_never_rejected_by_guards_partial only *)
+Theorem ebsim_roundtrip_ct faces t o rm : ct_create faces = Some t -> eb_encode_ct t = EOk o ->
+  (Z.of_nat (3 * length faces + length (ct_vcorn t)) < 2147483648)%Z ->
+  ((3 * o_nfaces o) / 2 <= (o_nverts o * (o_nverts o - 1)) / 2)%Z ->
+  exists n s, eb_decode_of o rm = D.Ok (n, s) /\ eb_iso (ct_c2v t) (ct_opp t) (o_pcc o) (D.c2v s) (D.copp s).
+Proof.
+  intros H E Sz G3. apply (ebsim_roundtrip_events_start_ct_partial faces t o rm H E Sz G3).
+  destruct (ct_create_wf _ _ H) as (L & OK & Hv & FAN & _).
+  pose proof E as E0. unfold eb_encode_ct in E0. destruct (big_step_has_trace _ _ _ _ _ _ E0) as (tr & Et).
+  apply (start_allM (ct_c2v t) (ct_opp t) (length faces) (length (ct_vcorn t)) (ct_niso t) (ct_ndeg t) o tr L OK Hv FAN Et).
+Qed.
+
